@@ -10,6 +10,7 @@ import NmVerif.Simd.NdLemmas
 import NmVerif.Simd.AxisLemmas
 import NmVerif.Simd.OuterEvalLemmas
 import NmVerif.Simd.MatmulLemmas
+import NmVerif.Simd.IntLanesLemmas
 /-
   C12 — SIMD evaluation equals scalar evaluation for every size, shape and layout.
   Only property statements (+ non-vacuity examples, counterexamples of known findings) live here.
@@ -931,5 +932,178 @@ example : simdEvalMatmulWith true 2 (fun x y z => x * y + z) (· * ·) (· + ·)
     ∧ simdEvalMatmul 2 (fun x y z => x * y + z) (· * ·) (· + ·) (0 : Int) ⟨[2,3], true, [1,2,3,4,5,6]⟩ ⟨[3,2], true, [1,2,3,4,5,6]⟩ 2 3 2 [0,0,0,0]
       = some [22, 49, 28, 64]
     ∧ scalarMatmulNDA (· * ·) (· + ·) (0 : Int) ⟨[2,3], true, [1,2,3,4,5,6]⟩ ⟨[3,2], true, [1,2,3,4,5,6]⟩ 2 3 2 = some [22, 49, 28, 64] := by decide
+
+/-! ## integer element types (int8_t … uint64_t): the lane model of Simd/IntLanes.lean
+
+  A register lane is a bit pattern `BitVec w`; the instruction behind `simd_op_t<tag,T>::add / sub / mul` is chosen by the
+  width alone and is the modular operation `IOp.lane` on every lane (`packInt`, the assumption about padd* / psub* /
+  pmullo* and about `x + y`, `x - y`, `x * y` on vector types that the differential run measures on boundary values of
+  every type).  Everything else is proved: read as a number of `T` — signed or unsigned — a lane result is NumPy's
+  wrap-around result; the scalar functor of the tail loops and of the default evaluator is the same function wherever
+  C++ defines it; so the evaluators of the float theorems, instantiated at `BitVec w`, equal the scalar evaluator with
+  NO lane-wise hypothesis left, and reductions are exact (modular `+` and `*` are commutative monoids). -/
+
+/-- **one instruction serves `intN_t` and `uintN_t`**: a lane of padd / psub / pmullo, read as a number of `T`, is the exact
+    result reduced modulo `2^w` into the range of `T` — NumPy's arithmetic in dtype `T` — for every width and both
+    signednesses. -/
+theorem intLane_eq_wrap (t : IntTy) (o : IOp) (a b : BitVec t.bits) :
+    t.decode (o.lane a b) = t.wrap (o.exact (t.decode a) (t.decode b)) := decode_lane t o a b
+
+/-- **`IntTy.wrap` is the wrap-around SPEC**: `wrap z` is representable in `T`, congruent to `z` modulo `2^w`, and the only
+    such number. -/
+theorem intWrap_spec (t : IntTy) (hb : 0 < t.bits) (z : Int) :
+    t.InRange (t.wrap z) ∧ ((2 ^ t.bits : Nat) : Int) ∣ t.wrap z - z
+      ∧ ∀ r, t.InRange r → ((2 ^ t.bits : Nat) : Int) ∣ r - z → r = t.wrap z :=
+  ⟨wrap_inRange t hb z, wrap_dvd t z, fun r hr hd => wrap_unique t hb z r hr hd⟩
+
+/-- **scalar functor = lane operation wherever C++ defines it**: `static_cast<T>(t op u)` (operands promoted to `int` when
+    narrower, exact result, conversion keeps the low `w` bits) is the modular lane operation whenever the promoted
+    arithmetic does not overflow a signed type. -/
+theorem intScalarOp_eq_lane (t : IntTy) (o : IOp) (a b r : BitVec t.bits) (h : scalarOp t o a b = some r) :
+    r = o.lane a b := scalarOp_eq_lane t o a b r h
+
+/-- **where the scalar functor is defined for ALL operands**: add / subtract on types of at most 16 bits, multiply on
+    types of at most 15 bits and on signed 16-bit, every op on unsigned types of at least 32 bits (modular by
+    definition).  (Not: `uint16_t * uint16_t` — promoted to *signed* int — and signed 32/64-bit overflow, see the two
+    `…_undefined` instances below.) -/
+theorem intScalarOp_defined (t : IntTy) (hb : 0 < t.bits) (o : IOp) (a b : BitVec t.bits)
+    (hd : (t.bits ≤ 16 ∧ o ≠ .mul) ∨ (o = .mul ∧ (t.bits ≤ 15 ∨ (t.bits ≤ 16 ∧ t.signed = true)))
+          ∨ (t.signed = false ∧ 32 ≤ t.bits)) :
+    scalarOp t o a b = some (o.lane a b) := by
+  rcases hd with ⟨h16, hne⟩ | ⟨rfl, hm⟩ | ⟨hs, h32⟩
+  · exact scalarOp_some_narrow_addsub t hb h16 o hne a b
+  · exact scalarOp_some_narrow_mul t hb hm a b
+  · exact scalarOp_some_unsigned_wide t hs h32 o a b
+
+/-- `uint16_t(65535) * uint16_t(65535)`: both operands are promoted to (signed) `int`, the product 4294836225 overflows it -/
+theorem intScalarOp_u16_mul_undefined : scalarOp ⟨16, false⟩ .mul 65535#16 65535#16 = none := by decide
+
+/-- `int32_t(2147483647) + 1` overflows -/
+theorem intScalarOp_i32_add_undefined : scalarOp ⟨32, true⟩ .add 2147483647#32 1#32 = none := by decide
+
+/-- the packed integer instruction of the model is lane-wise by definition (this IS the assumption about the intrinsic) -/
+theorem packInt_laneWise (w lanes : Nat) (o : IOp) : LaneWise2 lanes (packInt (w := w) o) o.lane :=
+  fun _ _ _ _ => rfl
+
+/-- **integer binary, same shape: SIMD = scalar evaluator** for every width, op, element count, lane count and either
+    layout — no hypothesis on the packed op left. -/
+theorem simdEvalBinarySame_int_eq_scalar (w lanes : Nat) (hl : 0 < lanes) (o : IOp)
+    (a b : NDA (BitVec w)) (hwa : a.WF) (hwb : b.WF) (hsh : b.shape = a.shape) (hs : Pos a.shape)
+    (out : List (BitVec w)) (ho : out.length = prod a.shape) :
+    simdEvalBinarySame lanes (packInt o) o.lane a b out = scalarBinarySame o.lane a b :=
+  simdEvalBinarySame_eq_scalar lanes hl (packInt o) o.lane (packInt_laneWise w lanes o) a b hwa hwb hsh hs out ho
+
+/-- **integer binary with 2-d broadcasting: SIMD = NumPy broadcasting of the lane operation** -/
+theorem simdEvalBinary2d_int_eq_scalar (w N : Nat) (hN : 0 < N) (o : IOp) (a b : NDA (BitVec w)) (lr lc rr rc : Nat)
+    (ha : a.shape = [lr, lc]) (hb : b.shape = [rr, rc]) (hwa : a.WF) (hwb : b.WF)
+    (hlr : 0 < lr) (hlc : 0 < lc) (hrr : 0 < rr) (hrc : 0 < rc)
+    (hl : OperandOK (max lr rr) (max lc rc) lr lc) (hr : OperandOK (max lr rr) (max lc rc) rr rc)
+    (out : List (BitVec w)) (ho : out.length = max lr rr * max lc rc) :
+    simdEvalBinary2d N (packInt o) o.lane a b lr lc rr rc (max lc rc) out = scalarBinary2d o.lane a b lr lc rr rc :=
+  simdEvalBinary2d_eq_scalar N hN (packInt o) o.lane (packInt_laneWise w N o) a b lr lc rr rc ha hb hwa hwb hlr hlc hrr hrc hl hr out ho
+
+/-- **integer outer: SIMD = scalar outer product** -/
+theorem simdEvalOuter_int_eq_scalar (w N : Nat) (hN : 0 < N) (o : IOp) (a b : NDA (BitVec w)) (hwa : a.WF) (hwb : b.WF)
+    (hsa : Pos a.shape) (hsb : Pos b.shape) (hne : b.shape ≠ [])
+    (out : List (BitVec w)) (ho : out.length = prod (a.shape ++ b.shape)) :
+    simdEvalOuter N (packInt o) o.lane a b out = scalarOuter o.lane a b :=
+  simdEvalOuter_eq_scalar N hN (packInt o) o.lane (packInt_laneWise w N o) a b hwa hwb hsa hsb hne out ho
+
+/-- modular addition / multiplication with `view.op.identity()` is a commutative monoid on bit patterns -/
+theorem intIdentity_monoid (w : Nat) (o : IOp) (e : BitVec w) (h : o.identity = some e) : IsCommMonoid (o.lane (w := w)) e := by
+  cases o with
+  | add => cases h; exact bv_add_monoid w
+  | mul => cases h; exact bv_mul_monoid w
+  | sub => cases h
+
+/-- **integer reduction with `axis = None`: SIMD = scalar left fold, exactly** (no re-association error: the lanes are
+    elements of a commutative monoid) -/
+theorem simdEvalReduceAll_int_eq_fold (w lanes : Nat) (hl : 0 < lanes) (o : IOp) (a : NDA (BitVec w)) (hw : a.WF)
+    (hs : Pos a.shape) :
+    simdEvalReduceAll lanes (packInt o) o.lane o.identity a = scalarReduceAll o.lane a :=
+  simdEvalReduceAll_eq_fold lanes hl (packInt o) o.lane o.identity (intIdentity_monoid w o) (packInt_laneWise w lanes o) a hw hs
+
+/-- **integer reduction over any axis, keepdims on or off: SIMD = scalar evaluator, exactly** -/
+theorem simdReduceAxisK_int_eq_scalar (w N : Nat) (hN : 0 < N) (o : IOp) (a : NDA (BitVec w)) (hw : a.WF) (hs : Pos a.shape)
+    (axis : Nat) (hlt : axis < a.shape.length)
+    (axisI : Int) (hax : axisI = (axis : Int) ∨ axisI = (axis : Int) - (a.shape.length : Int)) (keep : Bool) :
+    simdReduceAxisK N (packInt o) o.lane o.identity a axisI keep
+      = (scalarReduceAxisK o.lane a axis keep).map (fun b => (reduceOutShape a.shape axis keep, b)) :=
+  simdReduceAxisK_eq_scalar N hN (packInt o) o.lane o.identity (intIdentity_monoid w o) (packInt_laneWise w N o) a hw hs axis hlt axisI hax keep
+
+/-- **integer matmul: SIMD = Σ_k a[m,k]·b[k,n] in modular arithmetic, exactly**: on integer lanes `fmadd` is `mullo` then `add`
+    (x86 SSE; `(a * b) + c` for the vector extensions), modular `+` is a commutative monoid, so the lane-strided
+    association of `eval_matmul` and the scalar evaluator's left-to-right sum agree bit for bit (no rounding, unlike the
+    floating-point statement `simdEvalMatmul_eq_scalar`). -/
+theorem simdEvalMatmul_int_eq_scalar (w N : Nat) (hN : 0 < N) (a b : NDA (BitVec w)) (M K Nn : Nat)
+    (ha : a.shape = [M, K]) (hb : b.shape = [K, Nn]) (hwa : a.WF) (hwb : b.WF) (hK : 0 < K)
+    (hra : a.colMajor = false) (hcb : b.colMajor = true) (out : List (BitVec w)) (ho : out.length = M * Nn) :
+    simdEvalMatmul N (fun x y z => x * y + z) (· * ·) (· + ·) (0 : BitVec w) a b M K Nn out
+      = scalarMatmulNDA (· * ·) (· + ·) (0 : BitVec w) a b M K Nn :=
+  simdEvalMatmul_eq_scalar N hN (fun x y z => x * y + z) (· * ·) (· + ·) (0 : BitVec w)
+    ⟨BitVec.add_assoc, BitVec.add_comm, BitVec.zero_add⟩ (fun _ _ _ => rfl) (by simp) a b M K Nn ha hb hwa hwb hK hra hcb out ho
+
+/-- **a saturating instruction is not lane-wise** (what `_mm_subs_epi16` in place of `_mm_sub_epi16` computes):
+    30000 − (−10000) saturates to 32767, the scalar functor / NumPy give −25536 -/
+theorem satSubS_not_laneWise : ¬ LaneWise2 8 (List.zipWith (satSubS (w := 16))) IOp.sub.lane := by
+  intro h
+  have := h (List.replicate 8 (BitVec.ofInt 16 30000)) (List.replicate 8 (BitVec.ofInt 16 (-10000))) rfl rfl
+  revert this; decide
+
+/-- … and `_mm256_adds_epu8` in place of `_mm256_add_epi8`: 200 + 100 saturates to 255, wrap-around gives 44 -/
+theorem satAddU_not_laneWise : ¬ LaneWise2 32 (List.zipWith (satAddU (w := 8))) IOp.add.lane := by
+  intro h
+  have := h (List.replicate 32 200#8) (List.replicate 32 100#8) rfl rfl
+  revert this; decide
+
+/-- **known finding vector-extension.uninitialised-lanes**: the register type of the vector-extension contexts is declared
+    with `vector_size(bit_width / sizeof(T))` BYTES: for `vector_128` and `int16_t` that is 32 lanes of which 8 are ever
+    loaded; the other 24 are indeterminate and are multiplied / added with the rest (UBSan: signed integer overflow on
+    values that are not in the input).  Results are unaffected (only the filled lanes are stored). -/
+theorem vectorExtension_lanes_counterexample :
+    vecExtTypeLanes 128 2 = 32 ∧ vecExtUsedLanes 128 2 = 8 ∧ vecExtTypeLanes 512 1 = 512 ∧ vecExtUsedLanes 512 1 = 64 := by decide
+
+/-- … the declared type has exactly the lanes in use only for 8-byte element types (`double`, `int64_t`, `uint64_t`) -/
+theorem vectorExtension_lanes_exact_iff :
+    ∀ bw ∈ [128, 256, 512], ∀ sz ∈ [1, 2, 4, 8], (vecExtTypeLanes bw sz = vecExtUsedLanes bw sz ↔ sz = 8) := by decide
+
+/-- **known finding vector-extension.signed-lane-overflow**: a vector-extension lane computes in `T` itself, the scalar functor
+    in the promoted type: `int16_t(32767) + 1` is defined for the scalar evaluator (−32768, as NumPy) and signed overflow —
+    undefined — on a `vector_128` lane.  (Values agree in practice: g++ wraps.) -/
+theorem vecExtLane_signed_overflow_counterexample :
+    vecExtLane ⟨16, true⟩ .add 32767#16 1#16 = none
+      ∧ scalarOp ⟨16, true⟩ .add 32767#16 1#16 = some (BitVec.ofInt 16 (-32768)) := by decide
+
+/-- … wherever the vector-extension lane is defined it is the modular lane operation; unsigned lanes always are -/
+theorem vecExtLane_eq_lane (t : IntTy) (o : IOp) (a b r : BitVec t.bits) (h : vecExtLane t o a b = some r) :
+    r = o.lane a b := by
+  unfold vecExtLane at h
+  split at h
+  · cases h
+  · exact (Option.some.inj h).symm
+
+theorem vecExtLane_unsigned (t : IntTy) (hs : t.signed = false) (o : IOp) (a b : BitVec t.bits) :
+    vecExtLane t o a b = some (o.lane a b) := by
+  unfold vecExtLane; simp [hs]
+
+-- non-vacuity / instances
+example : vecExtLane ⟨16, true⟩ .add 32766#16 1#16 = some 32767#16 := by decide
+example : (⟨16, true⟩ : IntTy).decode (IOp.sub.lane (BitVec.ofInt 16 30000) (BitVec.ofInt 16 (-10000))) = -25536 := by decide
+example : (⟨16, false⟩ : IntTy).decode (IOp.sub.lane 40000#16 30000#16) = 10000 := by decide
+example : (⟨16, false⟩ : IntTy).wrap (40000 * 3) = 54464 ∧ (⟨8, true⟩ : IntTy).wrap (100 + 100) = -56 := by decide
+example : (⟨16, true⟩ : IntTy).InRange (-32768) ∧ ¬ (⟨16, true⟩ : IntTy).InRange 32768 := by decide
+example : scalarOp ⟨16, true⟩ .sub (BitVec.ofInt 16 30000) (BitVec.ofInt 16 (-10000)) = some (BitVec.ofInt 16 (-25536)) := by decide
+example : scalarOp ⟨8, false⟩ .mul 200#8 200#8 = some 64#8 := by decide
+example : simdEvalBinarySame 8 (packInt .sub) IOp.sub.lane
+    ⟨[9], false, (List.replicate 9 (BitVec.ofInt 16 30000))⟩ ⟨[9], false, (List.replicate 9 (BitVec.ofInt 16 (-10000)))⟩
+    (List.replicate 9 0) = some (List.replicate 9 (BitVec.ofInt 16 (-25536))) := by decide
+example : simdEvalReduceAll 4 (packInt .mul) IOp.mul.lane IOp.mul.identity ⟨[5], false, [65536#32, 65537#32, 3#32, 4#32, 5#32]⟩
+    = some 3932160#32 := by decide
+example : (IOp.sub.identity (w := 8)) = none ∧ (IOp.add.identity (w := 8)) = some 0 := by decide
+example : satSubS (BitVec.ofInt 16 30000) (BitVec.ofInt 16 (-10000)) = BitVec.ofInt 16 32767 := by decide
+example : satAddU 200#8 100#8 = 255#8 := by decide
+example : simdEvalMatmul 8 (fun x y z => x * y + z) (· * ·) (· + ·) (0 : BitVec 16)
+    ⟨[1,9], false, (List.replicate 9 (BitVec.ofInt 16 4000))⟩ ⟨[9,1], true, (List.replicate 9 (BitVec.ofInt 16 1000))⟩ 1 9 1 [0]
+    = some [BitVec.ofInt 16 (9 * 4000 * 1000)] := by decide
 
 end NmVerif.Props.C12
